@@ -213,4 +213,24 @@ theorem JCatchRel.cases {j : JM ℝ} {c : M (ℝ × Slot)} (h : JCatchRel j c) :
 macro "jeq_use_catch" h:term : tactic =>
   `(tactic| (rcases (JCatchRel.cases $h) with ⟨v, hc, hj⟩ | ⟨a, b, hc, hj⟩ | ⟨a, hc⟩ <;> [skip; (jeq_auto; done); (jeq_auto; done)]))
 
+/-! ## the weak relation: any Java exception where C fails -/
+theorem JRelW.value {v : ℝ} {s : Slot} : JRelW (.ok v) (.ok (v, s)) s := Or.inl ⟨rfl, rfl⟩
+theorem JRelW.fail {s : Slot} {c : ErrCode} {m : String} {x : JStop} (hx : x.isExc = true) :
+    JRelW (.error x) (.ok ((0 : ℝ), s.withErr ⟨c, m⟩)) s := Or.inr ⟨⟨c, m⟩, rfl, rfl, x, hx, rfl⟩
+theorem JRelW.ub {j : JM ℝ} {b : String} {s : Slot} : JRelW j (.error (.ub b)) s := trivial
+
+macro "jeqw_leaf" : tactic =>
+  `(tactic| first
+    | with_reducible exact JRelW.value | with_reducible exact JRelW.ub | (exact JRelW.fail rfl)
+    | omega
+    | (simp only [wrapI] at *; omega)
+    | (exfalso; linarith))
+
+macro "jeqw_auto" : tactic =>
+  `(tactic| (
+    (try jeq_simp)
+    repeat' (first
+      | jeqw_leaf
+      | (split_ifs <;> (try jeq_simp)))))
+
 end Xrl
